@@ -507,7 +507,8 @@ class EquityMonitor:
             elif k in ('total', 'total_winning_trades', 'total_losing_trades', 'longs_count', 'shorts_count', 'winning_streak', 'losing_streak'):
                 ok = int(got) == int(want)
             else:
-                ok = abs(float(got) - float(want)) <= 1e-9 * (scale if k not in ('win_rate', 'longs_percentage', 'shorts_percentage', 'net_profit_percentage') else 100.0)
+                unit = scale if k not in ('win_rate', 'longs_percentage', 'shorts_percentage', 'net_profit_percentage') else 100.0
+                ok = abs(float(got) - float(want)) <= 1e-9 * max(unit, abs(float(want)))
             if not ok:
                 zero = any(x == 0 for x in pnl)
                 self.v(c, 'metrics', f'C16|metric|{k}|zero-pnl-trades={int(zero)}', {'metric': k, 'got': got, 'want': want, 'n': total})
